@@ -284,3 +284,113 @@ def check_async_trait_body(report, rule, mkey, im, orig, v, exp, nested):
     walk(im["body"], cnt)
     if n_await[0] != 1:
         report.add(rule, mkey + " await", "async_trait body awaits %d times, expected once" % n_await[0], where=exp.label())
+
+
+# ----------------------------------------------------------------------------------------
+# R-PRED
+
+IMPLICIT = ("core::marker::Sized", "core::marker::MetaSized", "core::marker::PointeeSized")
+
+
+def pred_set(clauses):
+    out = set()
+    for c in clauses:
+        if c["k"] == "trait" and c["trait"] in IMPLICIT:
+            continue
+        out.add(clause_s(c))
+    return out
+
+
+def param_ty(name, index=0):
+    return {"t": "param", "name": name, "index": index}
+
+
+def impl_adt_of(t):
+    return {"t": "adt", "path": IMPL_ADT, "args": [t]}
+
+
+def expected_mockable(attr, config):
+    """Mock settings of an fn/mod invocation, from the attribute text and the configuration —
+    transcribed from the property text, not from the macro."""
+    feature = config.startswith("unimock")
+    uni = attr.flag("unimock")
+    if uni is None:
+        uni = feature or attr.macro in ("entrait_unimock", "entrait_export_unimock")
+    mockall = attr.flag("mockall") or False
+    return bool((uni and "mock_api" in attr.opts) or mockall)
+
+
+def takes_self_by_value(m):
+    ins = m["sig"]["inputs"]
+    return bool(ins) and m.get("has_self") and ins[0].get("t") != "ref"
+
+
+def check_fnmod_predicates(report, crate, exp, cfg, rule="R-PRED"):
+    """C04: predicates_of(generated impl) == fixed ∪ declared deps bounds ∪ lifted where-predicates,
+    and the impl's self type is T (not mockable) or Impl<T> (mockable)."""
+    v = FnModView(crate, exp)
+    key0 = exp.ident()
+    if v.trait is None:
+        return
+    methods = trait_methods(crate, v.trait)
+    kinds = set(v.deps_kind(o) for o in v.originals)
+    concrete = "concrete" in kinds
+    for imp in v.impls:
+        if in_macro(imp, ("unimock", "automock")) or entrait_depth(imp) > 1:
+            continue
+        report.count("impls_compared")
+        actual = pred_set(imp["predicates"]["own"])
+        self_ty = imp["self_ty"]
+        own_types = [g["name"] for g in imp["generics"]["own"] if g["kind"] == "type"]
+        expected = set()
+        if concrete:
+            want_self = None
+        else:
+            t = param_ty("EntraitT")
+            mock = expected_mockable(exp.attr, cfg)
+            want_self = impl_adt_of(t) if mock else t
+            if ty_s(self_ty) != ty_s(want_self):
+                report.add(rule, key0 + " self-type",
+                           "impl self type is `%s`, expected `%s` (%s)" % (ty_s(self_ty), ty_s(want_self),
+                                                                         "mock support requested" if mock else "no mock support requested"),
+                           where=exp.label(), data={"config": cfg})
+            expected.add("EntraitT: core::marker::Sync")
+            expected.add("EntraitT: 'static")
+            if any(takes_self_by_value(m) for m in methods):
+                expected.add("EntraitT: core::marker::Send")
+        lifted = {}  # clause string -> method names that must carry it if the impl does not
+        for o in v.originals:
+            dp = v.deps_param(o)
+            for c in o["predicates"]["own"]:
+                if c["k"] == "trait" and c["trait"] in IMPLICIT:
+                    continue
+                if dp is not None and mentions(c, lambda n: n.get("t") == "param" and n.get("name") == dp):
+                    if want_self is None:
+                        continue
+                    expected.add(clause_s(subst(c, {dp: want_self})))
+                else:
+                    lifted.setdefault(clause_s(c), []).append(last_seg(o["path"]))
+        # predicates on the other (lifted) generic parameters may sit on the impl or on the method
+        ims = impl_methods(crate, imp)
+        for cs, fnames in sorted(lifted.items()):
+            if cs in actual:
+                expected.add(cs)
+                continue
+            for fname in fnames:
+                im = ims.get(fname)
+                have = pred_set(im["predicates"]["own"]) if im else set()
+                if cs not in have:
+                    report.add(rule + "-lifted", key0 + " lifted " + cs,
+                               "requirement `%s` of `%s` is neither on the generated impl nor on its method" % (cs, fname),
+                               where=exp.label(), data={"config": cfg})
+        missing = sorted(expected - actual)
+        extra = sorted(actual - expected)
+        report.count("predicates_compared", len(expected | actual))
+        report.sample({"impl": imp["path"], "config": cfg, "predicates": sorted(actual)})
+        for m in missing:
+            report.add(rule, key0 + " missing " + m, "generated impl `%s` lacks the requirement `%s` (a declared bound was dropped)"
+                       % (imp["path"], m), where=exp.label(), data={"actual": sorted(actual), "expected": sorted(expected), "config": cfg})
+        for x in extra:
+            report.add(rule, key0 + " extra " + x, "generated impl `%s` has the undeclared requirement `%s`"
+                       % (imp["path"], x), where=exp.label(), data={"actual": sorted(actual), "expected": sorted(expected), "config": cfg})
+    return v
